@@ -305,21 +305,33 @@ class PrivatePart(Part):
         self.tier, self.seed = tier, seed
 
     def cases(self):
-        return [{"salt": s, "B": B, "extra": extra}
+        return [{"salt": s, "B": B, "extra": extra, "prefixes": pref}
                 for s in ("saltForTest", "seed%d" % self.seed) for B in (0, 8)
-                for extra in (None, "200.7.6.0/24")]
+                for extra in (None, "200.7.6.0/24", "12.34.0.0/16,10.1.2.3")
+                for pref in (None, "0.0.0.0/1,128.0.0.0/2", "200.0.0.0/5")]
 
     def run(self, cfg):
         from netconan.netconan import main
 
         res = Res()
         priv = [ipaddress.ip_network(n) for n in ("10.0.0.0/8", "172.16.0.0/12", "192.168.0.0/16")]
-        nets = priv + ([ipaddress.ip_network(cfg["extra"])] if cfg["extra"] else [])
+        nets = priv + ([ipaddress.ip_network(x) for x in cfg["extra"].split(",")] if cfg["extra"] else [])
         addrs = []
         for n in nets:
             lo, hi = int(n.network_address), int(n.broadcast_address)
             addrs += [lo, hi, lo + 1, (lo + hi) // 2, lo - 1, hi + 1]
         addrs += ipdom.v4_window(self.seed, 2)[::9]
+        # adversarial inputs: the addresses that WOULD land inside a preserved network if its prefix
+        # were not pinned, computed with a reference anonymizer that has the same salt, prefixes
+        # and host bits but no preserved networks
+        pref = cfg.get("prefixes")
+        plist = None if pref is None else [p for p in pref.split(",") if p]
+        unpinned = ipdom.make_v4(["md5", cfg["salt"]], cfg["B"], plist, None)
+        for n in nets:
+            lo, hi = int(n.network_address), int(n.broadcast_address)
+            for x in {lo, hi, (lo + hi) // 2, lo + 1, hi - 1, lo + (hi - lo) // 3}:
+                if lo <= x <= hi:
+                    addrs.append(unpinned.deanonymize(x))
         addrs = sorted(set(a for a in addrs if 0 <= a < 2 ** 32))
         root = seams.scratch_dir("c05")
         try:
@@ -330,6 +342,8 @@ class PrivatePart(Part):
                     "-o", os.path.join(root, "out")]
             if cfg["extra"]:
                 argv += ["--preserve-addresses", cfg["extra"]]
+            if cfg.get("prefixes") is not None:
+                argv += ["--preserve-prefixes=" + cfg["prefixes"]]
             with seams.capture_logs():
                 main(argv)
             got = seams.read_tree(os.path.join(root, "out")).get("a.cfg", b"").decode().splitlines()
@@ -345,7 +359,7 @@ class PrivatePart(Part):
                     if tok != t:
                         res.violation("private-address-rewritten", "%s -> %s with %r" % (t, tok, argv[:7]), cfg)
                 else:
-                    res.nt((cfg["salt"], cfg["B"], cfg["extra"], a))
+                    res.nt((cfg["salt"], cfg["B"], cfg["extra"], cfg.get("prefixes"), a))
                     try:
                         b = int(ipaddress.IPv4Address(tok))
                     except ValueError:
